@@ -138,6 +138,11 @@ def conclude(prop_id, tier, seed, *, states, transitions, executions, nontrivial
             det = json.dumps(v.get("detail"), default=str)
             print("   detail=%s" % (det[:1500],))
         printed += 1
+    if fresh:
+        kinds = {}
+        for sigkey, n, vs in fresh:
+            kinds[vs[0]["kind"]] = kinds.get(vs[0]["kind"], 0) + n
+        print("   violation kinds: %s" % json.dumps(kinds, sort_keys=True))
     if printed > 12:
         print("   (%d further distinct violation signatures suppressed)" % (printed - 12))
     coverage = dict(
